@@ -4,6 +4,7 @@ use crate::engine::*;
 use crate::gens;
 use crate::model::lattice::{deinterleave, interleave};
 use cdshealpix::nested;
+use crate::model::geom;
 use cdshealpix::nested::zordercurve::{get_zoc, ZOrderCurve, LARGE_ZOC_LUT, LARGE_ZOC_XOR};
 use proptest::prelude::*;
 use serde::{Deserialize, Serialize};
@@ -65,6 +66,14 @@ fn check_pair(z: &dyn ZOrderCurve, imp: u8, i: u32, j: u32) -> Result<(), Violat
   }
   if z.oj2h(j) != interleave(0, j) {
     return Err(f(Violation::new("oj2h", "mismatch", format!("impl {}: oj2h({}) = {:#x}, expected {:#x}", imp, j, z.oj2h(j), interleave(0, j)))));
+  }
+  // the floating point entry point truncates its coordinates (trait default: ij2h(x as u32, y as u32)),
+  // whichever implementation: exact integers, mid-cell and the last double below the next integer
+  for (x, y) in [(i as f64, j as f64), (i as f64 + 0.5, j as f64 + 0.5), (geom::next_down((i as f64) + 1.0), geom::next_down((j as f64) + 1.0))] {
+    let hx = z.xy2h(x, y);
+    if hx != want {
+      return Err(f(Violation::new("xy2h", "mismatch", format!("impl {}: xy2h({:?}, {:?}) = {:#x}, ij2h of the truncated coordinates ({}, {}) = {:#x}", imp, x, y, hx, i, j, want))));
+    }
   }
   let ij = z.h2ij(want);
   let (i2, j2) = (z.ij2i(ij), z.ij2j(ij));
